@@ -39,6 +39,8 @@ type Gen struct {
 	// reuse: a resume enqueued as part of a "session used again after its commit" follow-up:
 	// when it yields a writer, a short write and a read of the committed digest follow
 	reuse *reusePlan
+	// content of the blobs pushed so far, by digest (for pushing the same content again)
+	known map[string][]byte
 }
 
 type reusePlan struct {
@@ -97,12 +99,15 @@ var (
 		"sha256", "sha256:", "e3b0c44298fc1c149afbf4c8996fb92427ae41e4649b934ca495991b7852b855"}
 )
 
+// media types blobs are pushed under when a stored content is pushed again
+var blobMedia = []string{"application/octet-stream", "application/vnd.custom", "application/layer", "text/plain", ocispec.MediaTypeImageConfig}
+
 // a tag of the greatest length the grammar allows (128)
 var maxTag = strings.Repeat("Ab0._-zZ", 16)
 
 func NewGen(r *rand.Rand, large bool) *Gen {
 	g := &Gen{R: r, Large: large, Blobs: map[string][]string{}, Manifests: map[string][]ManRef{}, TagsSet: map[string][]string{},
-		Subjects: map[string][]string{}, Gone: map[string][]string{}}
+		Subjects: map[string][]string{}, Gone: map[string][]string{}, known: map[string][]byte{}}
 	g.Repos = []string{"r1", "r2", "a/b"}
 	g.Tags = []string{"t1", "t2", "latest"}
 	// two histories in three: the second and third repository, and the second tag, are drawn
@@ -328,6 +333,126 @@ func (g *Gen) nearValid(b []byte) []byte {
 	}
 }
 
+// jstr is s as a JSON string.
+func jstr(s string) string {
+	b, _ := json.Marshal(s)
+	return string(b)
+}
+
+// descShape writes the descriptor (media, dig, size) the way a hand-written or foreign document
+// may carry it: members missing (no digest, no media type, no size, none at all), a digest that
+// is the empty string or null, the whole descriptor null, a member given twice (with
+// encoding/json the last one counts), member names in another case (encoding/json matches them
+// whatever the case), the digest of the empty content with size 0 (well-formed), and values of
+// the wrong JSON type.  A descriptor that names no digest refers to nothing: a manifest carrying
+// one in any position is malformed, whatever the rest of the document looks like - and a
+// descriptor that is well-formed after decoding is as good as the usual spelling.  What each
+// shape decodes to is for encoding/json to say (the oracle table).
+func (g *Gen) descShape(media, dig string, size int64) string {
+	m, d := jstr(media), jstr(dig)
+	p := g.R.Intn(24)
+	switch {
+	case p < 3:
+		return `{}`
+	case p < 6:
+		return fmt.Sprintf(`{"mediaType":%s,"size":%d}`, m, size)
+	case p < 9:
+		return fmt.Sprintf(`{"mediaType":%s,"digest":"","size":%d}`, m, size)
+	case p < 11:
+		return fmt.Sprintf(`{"mediaType":%s,"digest":null,"size":%d}`, m, size)
+	case p == 11:
+		return `null`
+	case p == 12:
+		return fmt.Sprintf(`{"digest":%s}`, d)
+	case p == 13:
+		return fmt.Sprintf(`{"mediaType":%s,"digest":%s}`, m, d)
+	case p == 14:
+		return fmt.Sprintf(`{"digest":%s,"size":%d}`, d, size)
+	case p == 15:
+		return fmt.Sprintf(`{"mediaType":%s,"digest":%s,"size":0}`, m, jstr(Sha(nil)))
+	case p == 16:
+		return fmt.Sprintf(`{"mediaType":%s,"digest":%s,"size":%d,"digest":""}`, m, d, size)
+	case p == 17:
+		return fmt.Sprintf(`{"mediaType":%s,"digest":"","size":%d,"digest":%s}`, m, size, d)
+	case p == 18:
+		return fmt.Sprintf(`{"MediaType":%s,"DIGEST":%s,"Size":%d}`, m, d, size)
+	case p == 19:
+		return fmt.Sprintf(`{"mediaType":%s,"Digest":"","size":%d}`, m, size)
+	case p == 20:
+		return fmt.Sprintf(`{"mediaType":%s,"digest":%s,"size":%d,"annotations":null,"urls":null,"platform":null,"data":null}`, m, d, size)
+	case p == 21:
+		return fmt.Sprintf(`{"mediaType":"","digest":"","size":0}`)
+	case p == 22:
+		return fmt.Sprintf(`{"mediaType":%s,"digest":7,"size":%d}`, m, size)
+	}
+	return []string{`[]`, d, `7`, `""`, `false`, `[` + fmt.Sprintf(`{"mediaType":%s,"digest":%s,"size":%d}`, m, d, size) + `]`}[g.R.Intn(6)]
+}
+
+// reshape rewrites, now and then, one descriptor position of a well-formed manifest document
+// (the subject - most of the time -, the config, one entry of layers / manifests; a position the
+// document does not have yet is added) into one of the shapes of descShape, leaving the rest of
+// the document as it is: so that the reshaped descriptor is the only thing that can be wrong
+// with it.
+func (g *Gen) reshape(repo string, b []byte) []byte {
+	if g.R.Intn(7) != 0 {
+		return b
+	}
+	var doc map[string]json.RawMessage
+	if json.Unmarshal(b, &doc) != nil {
+		return b
+	}
+	// the descriptor now in a position, or a well-formed one that refers to nothing stored
+	base := func(raw json.RawMessage) (string, string, int64) {
+		var d ocispec.Descriptor
+		if raw != nil && json.Unmarshal(raw, &d) == nil && d.Digest != "" {
+			return d.MediaType, string(d.Digest), d.Size
+		}
+		return ocispec.MediaTypeImageManifest, Sha(append([]byte("dangling"), g.content()...)), 3
+	}
+	pos := "subject"
+	if g.R.Intn(3) == 0 {
+		pos = "list"
+		if _, ok := doc["config"]; ok && g.R.Intn(2) == 0 {
+			pos = "config"
+		}
+	}
+	switch pos {
+	case "subject", "config":
+		m, d, n := base(doc[pos])
+		if pos == "subject" {
+			g.Subjects[repo] = append(g.Subjects[repo], d)
+		}
+		doc[pos] = json.RawMessage(g.descShape(m, d, n))
+	default:
+		key := "manifests"
+		if _, ok := doc["config"]; ok {
+			key = "layers"
+		}
+		var list []json.RawMessage
+		if json.Unmarshal(doc[key], &list) != nil {
+			return b
+		}
+		if len(list) == 0 || g.R.Intn(3) == 0 {
+			m, d, n := base(nil)
+			list = append(list, json.RawMessage(g.descShape(m, d, n)))
+		} else {
+			i := g.R.Intn(len(list))
+			m, d, n := base(list[i])
+			list[i] = json.RawMessage(g.descShape(m, d, n))
+		}
+		nb, err := json.Marshal(list)
+		if err != nil {
+			return b
+		}
+		doc[key] = nb
+	}
+	nb, err := json.Marshal(doc)
+	if err != nil {
+		return b
+	}
+	return nb
+}
+
 // decorate gives a descriptor, now and then, the optional members of the image-spec descriptor
 // (urls, annotations, platform, artifactType, embedded data): legal, rarely seen, and none of
 // them changes what the descriptor refers to.
@@ -387,7 +512,7 @@ func (g *Gen) manifestContent(repo string) (content []byte, media string) {
 		}
 		g.maybeSubject(repo, &m.Subject)
 		b, _ := json.Marshal(m)
-		return g.nearValid(b), ocispec.MediaTypeImageManifest
+		return g.nearValid(g.reshape(repo, b)), ocispec.MediaTypeImageManifest
 	case p < 17: // index
 		ix := ocispec.Index{MediaType: ocispec.MediaTypeImageIndex}
 		ix.SchemaVersion = 2
@@ -409,7 +534,7 @@ func (g *Gen) manifestContent(repo string) (content []byte, media string) {
 		}
 		g.maybeSubject(repo, &ix.Subject)
 		b, _ := json.Marshal(ix)
-		return g.nearValid(b), ocispec.MediaTypeImageIndex
+		return g.nearValid(g.reshape(repo, b)), ocispec.MediaTypeImageIndex
 	case p == 17: // malformed JSON under an OCI media type
 		return []byte(`{"layers": 5`), []string{ocispec.MediaTypeImageManifest, ocispec.MediaTypeImageIndex}[g.R.Intn(2)]
 	case p == 18: // JSON valid for one type and a type error for the other
@@ -507,6 +632,15 @@ func (g *Gen) Next() Op {
 		case p < 10:
 			c := g.content()
 			d := &Desc{Media: "application/octet-stream", Digest: Sha(c), Size: int64(len(c))}
+			// now and then the content of a blob the repository already holds, mostly under
+			// another media type: the entry is replaced, here and nowhere else
+			if bl := g.Blobs[repo]; len(bl) > 0 && g.R.Intn(8) == 0 {
+				if kc, ok := g.known[g.pick(bl)]; ok {
+					c = kc
+					d = &Desc{Media: g.pick(blobMedia), Digest: Sha(c), Size: int64(len(c))}
+					return Op{Kind: "PushBlob", Repo: repo, Desc: d, Content: c}
+				}
+			}
 			switch g.R.Intn(22) {
 			case 0:
 				d.Digest = Sha(g.content())
@@ -660,10 +794,32 @@ func (g *Gen) Update(o Op, r Result, e *Exec) {
 	case "PushBlob":
 		if r.Kind == "desc" {
 			g.Blobs[o.Repo] = append(g.Blobs[o.Repo], r.Desc.Digest)
+			g.known[r.Desc.Digest] = o.Content
 		}
 	case "MountBlob":
 		if r.Kind == "desc" {
 			g.Blobs[o.Repo] = append(g.Blobs[o.Repo], o.Digest)
+			// now and then: the same content is pushed again, under another media type, to one
+			// of the two repositories, and the blob is read in both.  Repositories are
+			// independent: what is done to one of them shows in that one only.
+			if c, ok := g.known[o.Digest]; ok && o.From != o.Repo && len(g.queue) == 0 && g.R.Intn(2) == 0 {
+				to, other := o.From, o.Repo
+				if g.R.Intn(2) == 0 {
+					to, other = other, to
+				}
+				g.queue = append(g.queue,
+					Op{Kind: "PushBlob", Repo: to, Desc: &Desc{Media: "application/vnd.pushed-again", Digest: o.Digest, Size: int64(len(c))}, Content: c},
+					Op{Kind: "ResolveBlob", Repo: other, Digest: o.Digest},
+					Op{Kind: "ResolveBlob", Repo: to, Digest: o.Digest})
+				if g.R.Intn(2) == 0 {
+					g.queue = append(g.queue, Op{Kind: "GetBlob", Repo: other, Digest: o.Digest})
+				}
+				if g.R.Intn(3) == 0 { // and what a third repository gets when it mounts it now
+					third := g.pick(g.Repos)
+					g.queue = append(g.queue, Op{Kind: "MountBlob", From: other, Repo: third, Digest: o.Digest},
+						Op{Kind: "ResolveBlob", Repo: third, Digest: o.Digest})
+				}
+			}
 		}
 	case "PushManifest":
 		if r.Kind == "desc" {
@@ -710,6 +866,22 @@ func (g *Gen) Update(o Op, r Result, e *Exec) {
 				}
 				g.queue = append(g.queue, Op{Kind: "GetBlob", Repo: pl.repo, Digest: pl.digest},
 					Op{Kind: "ResolveBlob", Repo: pl.repo, Digest: pl.digest})
+			} else if o.Kind == "PushBlobChunkedResume" && len(g.queue) == 0 && g.R.Intn(2) == 0 {
+				// now and then a session is resumed twice in a row (a client that lost the answer
+				// to its first attempt, or asked with a stale offset first): the offset of the
+				// LAST resume is the one the next write is held to - -1 lifts the check an
+				// earlier resume armed, a stale offset arms it whatever came before
+				w := g.Writers[r.W]
+				size := int64(len(w.Written))
+				if g.R.Intn(2) == 0 { // a write between the two (refused when the first offset was stale)
+					g.queue = append(g.queue, Op{Kind: "WWrite", W: r.W, Content: []byte("xy")})
+					if o.Off < 0 || o.Off == size {
+						size += 2
+					}
+				}
+				off := []int64{-1, -1, size, size + 1, 0}[g.R.Intn(5)]
+				g.queue = append(g.queue, Op{Kind: "PushBlobChunkedResume", Repo: w.Repo, ID: w.ID, Off: off, Hint: 0},
+					Op{Kind: "WWrite", W: r.W, Content: []byte("z")}, Op{Kind: "WSize", W: r.W})
 			}
 		}
 		if o.Kind == "PushBlobChunkedResume" {
